@@ -32,7 +32,9 @@ def _guard(env, what, fn, *a):
         import traceback
 
         tb = traceback.extract_tb(ex.__traceback__)
-        if not any("/repo/" in f.filename for f in tb):
+        from vx.report import in_repo
+
+        if not any(in_repo(f.filename) for f in tb):
             raise  # the harness itself failed: reported as such by the driver
         env.check(False, f"{what}: raised {type(ex).__name__}: {str(ex)[:80]}")
         return False, None
